@@ -240,10 +240,14 @@ Section Stable.
     pose proof (same4_policy_apply_filter sc s (p_id p)) as [P1 _].
     destruct (policy_apply_filter sc s (p_id p)) as [s1 f1]. cbn [fst] in P, P1.
     destruct (match f1 with FPass => _ | _ => _ end).
-    - assert (K : fstep s1 (fst (kubectl_apply sc s1 l))).
-      { apply f_kubectl_apply; [rewrite (HL l eq_refl); exact Hi|rewrite P1; exact G]. }
-      destruct (kubectl_apply sc s1 l) as [s2 r]. cbn [fst] in K.
-      destruct r; (ftr; [exact P|]; ftr; [exact K|]; apply f_result).
+    - assert (M : fstep s1 (fst (mutate sc s1 l))) by (apply fstep_same; [apply mutate_cl|apply mutate_tr]).
+      pose proof (mutate_cl sc s1 l) as M1.
+      destruct (mutate sc s1 l) as [sm okm]. cbn [fst] in M, M1.
+      destruct okm; cbn [negb]; [|ftr; [exact P|]; ftr; [exact M|apply f_result]].
+      assert (K : fstep sm (fst (kubectl_apply sc sm l))).
+      { apply f_kubectl_apply; [rewrite (HL l eq_refl); exact Hi|rewrite M1, P1; exact G]. }
+      destruct (kubectl_apply sc sm l) as [s2 r]. cbn [fst] in K.
+      destruct r; (ftr; [exact P|]; ftr; [exact M|]; ftr; [exact K|]; apply f_result).
     - ftr; [exact P|apply f_result].
     - ftr; [exact P|apply f_result].
   Qed.
